@@ -57,18 +57,31 @@ def run_file(desc):
         names = list(nodes)
         pad = "x" * rng.randint(0, 20)
         aval = {"v": rng.randint(10, 99), "pad": pad}
-        stores["a"].write(aval)
+        symlinked = rng.random() < 0.4
+        if symlinked:
+            # the source path is a symbolic link to a file kept elsewhere; updates rewrite the TARGET in place (the link itself never changes)
+            from uberjob.stores import JsonFileStore
+
+            os.mkdir(os.path.join(d, "data"))
+            real = JsonFileStore(os.path.join(d, "data", "real_a.json"))
+            real.write(aval)
+            os.symlink(os.path.join(d, "data", "real_a.json"), os.path.join(d, "a.json"))
+            os.utime(os.path.join(d, "a.json"), (1_000_000_000, 1_000_000_000), follow_symlinks=False)
+            writer = real
+        else:
+            writer = stores["a"]
+        writer.write(aval)
         F.wait_fs_tick(d)
         for step in range(rng.randint(3, 8)):
             op = "run" if step == 0 else rng.choice(["run", "update_same_len", "update", "touch_source", "delete", "run"])
             if op == "update_same_len":
                 aval = {"v": rng.choice([v for v in range(10, 100) if v != aval["v"]]), "pad": pad}
-                stores["a"].write(aval)
+                writer.write(aval)
             elif op == "update":
                 aval = {"v": rng.randint(100, 9999), "pad": pad}
-                stores["a"].write(aval)
+                writer.write(aval)
             elif op == "touch_source":
-                stores["a"].write(aval)  # rewritten with the very same content: newer, everything downstream is out of date
+                writer.write(aval)  # rewritten with the very same content: newer, everything downstream is out of date
             elif op == "delete":
                 victim = rng.choice(names[1:])
                 try:
@@ -76,6 +89,7 @@ def run_file(desc):
                 except OSError:
                     pass
             log.append(op)
+            F.wait_fs_tick(os.path.join(d, "data") if symlinked else d)
             F.wait_fs_tick(d)
             st0 = F.state(stores, names)
             o = F.ood(st0, deps, names)
@@ -120,7 +134,8 @@ def run_file(desc):
                 break
     finally:
         shutil.rmtree(d, ignore_errors=True)
-    res = {"status": "ok", "counters": counters, "nontrivial": counters["file_identical_rebuilds"] > 0, "sig": f"file|{shape}|{c_json}|{log}"}
+    counters["file_histories_symlinked_source"] = int(symlinked)
+    res = {"status": "ok", "counters": counters, "nontrivial": counters["file_identical_rebuilds"] > 0, "sig": f"file|{shape}|{c_json}|{symlinked}|{log}"}
     if bad:
         res.update(status="violation", detail=f"[file-backed stores {'json c' if c_json else 'pickle c'}] {bad}", mechanism="c05-oracle", witness={"history": log})
     return res
